@@ -4,9 +4,9 @@ package main
 
 import (
 	"fmt"
-	"sort"
 	"go/constant"
 	"go/types"
+	"sort"
 	"strings"
 )
 
@@ -132,7 +132,7 @@ func (env *SpecEnv) eval(e *SExpr) Val {
 			l := &Loc{Kind: LElem, Base: sArr(x.T), Idx: cellIdx(sOff(x.T), i.T), Owner: elemKey(xt.Elem()), Typ: xt.Elem()}
 			return u.load(env.cur, l)
 		case *types.Map:
-			return env.ex.mapGet(env.cur, x, i)
+			return env.ex.mapGet(env.cur, x, env.box(i, xt.Key()))
 		case *types.Array:
 			return Val{T: sel(x.T, i.T), Typ: xt.Elem()}
 		case *types.Basic:
@@ -170,6 +170,25 @@ func (env *SpecEnv) eval(e *SExpr) Val {
 			bs = append(bs, "("+name+" "+sortOf(t)+")")
 		}
 		body := n.eval(e.Args[0])
+		if len(e.Triggers) > 0 {
+			var pats []string
+			for _, tr := range e.Triggers {
+				var ts []string
+				for _, t := range tr {
+					tv := n.eval(t)
+					if strings.Contains(tv.T, "(ite ") {
+						continue // not usable as a pattern
+					}
+					ts = append(ts, tv.T)
+				}
+				if len(ts) > 0 {
+					pats = append(pats, ":pattern ("+strings.Join(ts, " ")+")")
+				}
+			}
+			if len(pats) > 0 {
+				return boolVal("(" + e.Op + " (" + strings.Join(bs, " ") + ") (! " + body.T + " " + strings.Join(pats, " ") + "))")
+			}
+		}
 		return boolVal("(" + e.Op + " (" + strings.Join(bs, " ") + ") " + body.T + ")")
 	case "call":
 		return env.call(e)
@@ -379,6 +398,15 @@ func (env *SpecEnv) binary(e *SExpr) Val {
 	switch e.Name {
 	case "==", "!=":
 		var t string
+		// an interface compared with a pointer: box the pointer with its static type (as Go does)
+		if sortOfSafe(a.Typ) == SIface && sortOfSafe(b.Typ) == SInt {
+			b = env.box(b, a.Typ)
+		} else if sortOfSafe(b.Typ) == SIface && sortOfSafe(a.Typ) == SInt {
+			a = env.box(a, b.Typ)
+		}
+		if sortOfSafe(a.Typ) != sortOfSafe(b.Typ) {
+			env.fail(e, "comparison of %s with %s", typeKey(a.Typ), typeKey(b.Typ))
+		}
 		sa := sortOfSafe(a.Typ)
 		if sa == "struct" || sa == "tuple" {
 			env.fail(e, "comparison of composite values")
@@ -498,7 +526,11 @@ func (env *SpecEnv) call(e *SExpr) Val {
 	case "has":
 		// has(m, k): key k in dom(m)
 		m, k := arg(0), arg(1)
-		return env.ex.mapHas(env.cur, m, k)
+		mt, ok := m.Typ.Underlying().(*types.Map)
+		if !ok {
+			env.fail(e, "has() on non-map")
+		}
+		return env.ex.mapHas(env.cur, m, env.box(k, mt.Key()))
 	case "implements":
 		// implements(x, type(I))
 		x := arg(0)
@@ -542,8 +574,12 @@ func (env *SpecEnv) call(e *SExpr) Val {
 			}
 		}
 		sort.Strings(rks)
+		rexcl := env.ex.frameExcluded()
 		var rcs []string
 		for _, k := range rks {
+			if rexcl[k] {
+				continue
+			}
 			c, o := u.get(env.cur, k), u.get(env.entry, k)
 			if c == o {
 				continue
@@ -552,6 +588,20 @@ func (env *SpecEnv) call(e *SExpr) Val {
 			rcs = append(rcs, fmt.Sprintf("(forall ((x!f Int)) (! (=> (< x!f %s) (= (select %s x!f) (select %s x!f))) :pattern ((select %s x!f))))", u.get(env.entry, "next"), c, o, c))
 		}
 		return boolVal(and(rcs...))
+	case "cast":
+		// cast(x, type(*T)): the pointer held by interface value x, typed *T
+		if len(e.Args) != 2 || e.Args[1].Op != "type" {
+			env.fail(e, "cast(x, type(*T))")
+		}
+		t := env.ex.resolveType(e.Args[1].Name, env.pkg)
+		if t == nil {
+			env.fail(e, "cast: unknown type %s", e.Args[1].Name)
+		}
+		x := arg(0)
+		if sortOfSafe(x.Typ) != SIface {
+			env.fail(e, "cast of non-interface")
+		}
+		return Val{T: iRef(x.T), Typ: t}
 	case "allocCounter":
 		u.keySort("next", SInt)
 		return intVal(u.get(env.cur, "next"))
@@ -568,8 +618,12 @@ func (env *SpecEnv) call(e *SExpr) Val {
 			}
 		}
 		sort.Strings(ks)
+		excl := env.ex.frameExcluded()
 		var cs []string
 		for _, k := range ks {
+			if excl[k] {
+				continue // covered by an explicit modifies item
+			}
 			c, o := u.get(env.cur, k), u.get(env.old, k)
 			if c == o {
 				continue
@@ -661,5 +715,5 @@ func (env *SpecEnv) box(a Val, param types.Type) Val {
 	if _, ok := a.Typ.Underlying().(*types.Pointer); !ok {
 		return a
 	}
-	return Val{T: ite(eq(a.T, "0"), mkI(intLit(int64(env.u().typeID(a.Typ))), "0"), mkI(intLit(int64(env.u().typeID(a.Typ))), a.T)), Typ: param}
+	return Val{T: mkI(intLit(int64(env.u().typeID(a.Typ))), a.T), Typ: param}
 }
